@@ -160,7 +160,14 @@ fn iovec_op(c: &mut Cursor) -> Op {
         11 | 12 => Op::Backfill { slot, which: c.u8() },
         13 => Op::Clear { slot },
         14 => Op::Take { slot },
-        15 => Op::CloneSlot { slot },
+        15 => {
+            let give = c.u8();
+            if give % 3 == 0 {
+                Op::CloneWithPending { slot, give }
+            } else {
+                Op::CloneSlot { slot }
+            }
+        }
         16 => Op::DropSlot { slot },
         17 => Op::Flush { slot },
         18 => Op::Ensure { slot, len: size(c) },
